@@ -1,4 +1,4 @@
-// Phantom node objects for the C19 harnesses ("under stubs", DESIGN 2.1): zeroed aligned storage of sizeof(Class) in which only the
+// Phantom node objects for the node-class harnesses (C19, C58, C57, C28) ("under stubs", DESIGN 2.1): zeroed aligned storage of sizeof(Class) in which only the
 // members read by the functions under test are placement-constructed. Access to private members: the including TU defines
 // private/protected as public before including validation.h (layout unchanged).
 #pragma once
@@ -25,6 +25,16 @@ __attribute__((no_sanitize("bounds"))) static inline void set_chain_height(CChai
 {
     static CBlockIndex* one_slot;
     CBlockIndex** raw[3]; raw[0] = &one_slot; raw[1] = &one_slot + (height + 1); raw[2] = raw[1];
+    static_assert(sizeof(c.vChain) == sizeof(raw), "libstdc++ vector layout");
+    memcpy((void*)&c.vChain, raw, sizeof(raw));
+}
+// CChain of symbolic height whose Tip() is `tip`: begin = &slot - height, end = &slot + 1, slot = tip. Only size() and the last
+// element are read by the code under test (Height(), Tip()); other elements do not exist.
+__attribute__((no_sanitize("bounds"))) static inline void set_chain_tip(CChain& c, int64_t height, CBlockIndex* tip)
+{
+    static CBlockIndex* tip_slot;
+    tip_slot = tip;
+    CBlockIndex** raw[3]; raw[0] = &tip_slot - height; raw[1] = &tip_slot + 1; raw[2] = raw[1];
     static_assert(sizeof(c.vChain) == sizeof(raw), "libstdc++ vector layout");
     memcpy((void*)&c.vChain, raw, sizeof(raw));
 }
